@@ -101,6 +101,14 @@ def check_gen_chain(case, rec):
         forms = {"tuple": tuple(reversed(ds)), "mapping": dict(Counter(ds)), "DaughtersDict": DaughtersDict(list(ds))}
         if ds and all(" " not in x and "\t" not in x and x.strip() == x and x for x in ds):
             forms["string"] = "  ".join(ds)
+        # a mode owns its final state: changing the object it was built from afterwards must not change the mode
+        src_dd = DaughtersDict(list(ds))
+        with impl(ID, "DecayMode(DaughtersDict) then mutate"):
+            own = DecayMode(b, src_dd, **md)
+            src_dd["__late_addition__"] += 2
+            src_dd.clear()
+        if mode_fields(own) != mode_fields(dm):
+            raise Mismatch("C11:mode-shares-input", f"{m!r}: the mode changed when the DaughtersDict it was built from was modified", mode_fields(dm), mode_fields(own))
         for how, val in forms.items():
             with impl(ID, f"DecayMode({how})"):
                 other = DecayMode(b, val, **md)
@@ -242,6 +250,11 @@ def check_pdgid(pid):
     name = B._from_map[pid]
     with impl(ID, "from_pdgids"):
         dm = DecayMode.from_pdgids(0.25, [pid, pid], model="PHSP")
+        empty = DecayMode.from_pdgids(0.5, [], model="PHSP", study="toy")
+        empty2 = DecayMode.from_pdgids(0.5, (), model_params=[1.0])
+    if empty.bf != 0.5 or len(empty.daughters) != 0 or empty.metadata != {"model": "PHSP", "model_params": "", "study": "toy"} \
+            or empty2.metadata != {"model": "", "model_params": [1.0]}:
+        raise Mismatch("C11:from_pdgids-empty", "empty final state given as PDG IDs with model info / metadata", {"model": "PHSP", "model_params": "", "study": "toy"}, dict(empty.metadata))
     if Counter(dict(dm.daughters.items())) != Counter({name: 2}) or dm.bf != 0.25 or dm.metadata.get("model") != "PHSP":
         raise Mismatch("C11:from_pdgids", f"PDG ID {pid}", {name: 2}, dict(dm.daughters.items()))
 
